@@ -56,6 +56,7 @@ Not proved: equality of the cheater lists (C03/C06: cheaters are a function of t
 ancestry, so they follow from equal Atropoi), restarts combined with seals (C08 is one epoch). The `cons` correspondence stream checks all of
 it on the real code: 2–3 instances, each with its own random parents-first order, must emit identical
 blocks, cheaters and epoch switches, equal to the order-free reference.
+Composition with the vector index (hypotheses `hobs`, `hvals`, `hbound` discharged for the combined model `Model/Indexed.lean` = Orderer over each instance's own index; cheater lists included): `Consensus.indexed_order_independent_partial`, `Consensus.indexed_blocks_cheaters_partial` (Props/Consensus.lean).
 -/
 namespace C01
 open Model.Pos Model.Election Model.Orderer ElectionRules VecProofs ElectionRefine OrdererProofs
